@@ -265,11 +265,23 @@ func (c *EvalCtx) eval(e Expr) Val {
 func (c *EvalCtx) evalBinary(e *EBinary) Val {
 	switch e.Op {
 	case "&&":
-		return boolVal(and(c.asBool(c.eval(e.L)), c.asBool(c.eval(e.R))))
+		l := c.asBool(c.eval(e.L))
+		if l == "false" {
+			return boolVal("false") // short-circuit: the right operand may be undefined on this path
+		}
+		return boolVal(and(l, c.asBool(c.eval(e.R))))
 	case "||":
-		return boolVal(or(c.asBool(c.eval(e.L)), c.asBool(c.eval(e.R))))
+		l := c.asBool(c.eval(e.L))
+		if l == "true" {
+			return boolVal("true")
+		}
+		return boolVal(or(l, c.asBool(c.eval(e.R))))
 	case "==>":
-		return boolVal(implies(c.asBool(c.eval(e.L)), c.asBool(c.eval(e.R))))
+		l := c.asBool(c.eval(e.L))
+		if l == "false" {
+			return boolVal("true")
+		}
+		return boolVal(implies(l, c.asBool(c.eval(e.R))))
 	case "<==>":
 		return boolVal(eq(c.asBool(c.eval(e.L)), c.asBool(c.eval(e.R))))
 	}
